@@ -14,8 +14,8 @@ from .par import pmap
 SETTINGS = {
     # pid: tier: (cfgs, scenario budget, scales, chunk, C->S episodes)
     "C08": {"quick": (["MC_AggSymmetry_C08_quick.cfg"], 600, [0, -14, -20, 40], 6, 100),
-            "thorough": (["MC_AggSymmetry_C08_thorough.cfg", "MC_AggSymmetry_mixed_thorough.cfg"], 6000,
-                         [0, -13, -14, -15, -17, -20, -34, 20, 40], 8, 500)},
+            "thorough": (["MC_AggSymmetry_C08_thorough.cfg", "MC_AggSymmetry_mixed_thorough.cfg"], 2500,
+                         [0, -13, -14, -15, -20, -34, 40], 8, 400)},
     "C09": {"quick": (["MC_AggSymmetry_C09_quick.cfg"], 700, [-10, -44, 0], 8, 100),
             "thorough": (["MC_AggSymmetry_C09_thorough.cfg"], 4000, [-10, -44, 0, -24], 8, 400)},
     "C10": {"quick": (["MC_AggSymmetry_C10_quick.cfg"], 10 ** 9, [0, -14, -34, 40], 6, 100),
